@@ -9,6 +9,10 @@
     the real reserved/committed pages of every space and the pages currently granted; every grant must be
     page aligned, inside the space's extent and disjoint from the live grants. An independent Python
     oracle recomputes "counters == pages currently granted" from the grant/release events alone.
+(4) real threads: T threads released by a barrier ask a REAL private BlockPageResource for one block each while its
+    block pool is empty (hx_unit `bpr race`): they meet in alloc_pages_slow_sync (one grows the space, the others are
+    served by its retry branch; yield point before the mutex); reserved == committed == 8 x live blocks is judged at
+    the two quiescent points of every op — the quiescent case of accounting_exact, which is proved for all interleavings.
 """
 import argparse, json, os, random, sys, time
 from concurrent.futures import ThreadPoolExecutor
@@ -24,8 +28,8 @@ PAGE = 4096
 PLANS = ["NoGC", "SemiSpace", "GenCopy", "GenImmix", "MarkSweep", "PageProtect", "Immix", "MarkCompact", "StickyImmix", "ConcurrentImmix"]
 
 META = {
-    "text": "Lean: a page resource shared by any number of threads, one transition per ATOMIC action (reserve_pages, the grant under the acquire_lock, the two counter updates of commit_pages, clear_request, the two fetch_subs of accounting.release, reset); proved for every reachable state, i.e. every interleaving: reserved = granted + pending of every thread, committed = granted + not-yet-subtracted releases, both equal the granted pages at quiescence (accounting_exact*), no counter update underflows (no_underflow), live grants are pairwise disjoint, inside the space and page aligned (granted_disjoint_aligned_in_space); the monotone cursor bump is shown to be a legal page supplier. Tie: a real contiguous MonotonePageResource is diffed exactly against the model on generated histories; GC runs of 10 plans with the event log on are replayed by the Lean monitor (every get_new_pages / release_pages / release_block / reset / reset_cursor / reserve / clear_request event) and the model's counters are compared with the real per-space counters at every `stats`.",
-    "note": "Proof over the model; partial w.r.t. the code (hand transcription tied by sampling). The free-list / block-pool / chunk supplier is abstract (`free` page set: its correctness is C26/C19/C29); discontiguous spaces and the Compressor (needs the unified_ref build) are not run; FreeListPageResource and BlockPageResource are tied through the GC runs only. Trusted: Lean kernel, hx_gc event log (HX_GC_EVENTS.md), mmtk_verif accessors.",
+    "text": "Lean: a page resource shared by any number of threads, one transition per ATOMIC action (reserve_pages, the grant under the acquire_lock, the two counter updates of commit_pages, clear_request, the two fetch_subs of accounting.release, reset); proved for every reachable state, i.e. every interleaving: reserved = granted + pending of every thread, committed = granted + not-yet-subtracted releases, both equal the granted pages at quiescence (accounting_exact*), no counter update underflows (no_underflow), live grants are pairwise disjoint, inside the space and page aligned (granted_disjoint_aligned_in_space); the monotone cursor bump is shown to be a legal page supplier. Tie: a real contiguous MonotonePageResource is diffed exactly against the model on generated histories; T real threads race for blocks of a real private BlockPageResource with an empty pool (slow path + retry branch) and the counters are judged at quiescence; GC runs of 10 plans with the event log on are replayed by the Lean monitor (every get_new_pages / release_pages / release_block / reset / reset_cursor / reserve / clear_request event) and the model's counters are compared with the real per-space counters at every `stats`.",
+    "note": "Proof over the model; partial w.r.t. the code (hand transcription tied by sampling). The free-list / block-pool / chunk supplier is abstract (`free` page set: its correctness is C26/C19/C29); discontiguous spaces and the Compressor (needs the unified_ref build) are not run; FreeListPageResource is tied through the GC runs only, BlockPageResource through the GC runs and the real-thread race (oracle only: the grants of a race are schedule dependent, the counters at quiescence are not). Trusted: Lean kernel, hx_gc event log (HX_GC_EVENTS.md), mmtk_verif accessors.",
     "technique": "Lean 4 proof (inductive invariant over all interleavings of atomic counter steps) + exact unit differential + event-log monitor on real GC runs",
     "category": "proof",
 }
@@ -210,6 +214,68 @@ def gen_program(plan, seed, rounds, heap, workers, opts):
     return {"plan": plan, "seed": seed, "head": head, "rounds": rs, "heap": heap, "workers": workers, "opts": opts}
 
 
+def gen_pressure_program(plan, seed, rounds, heap, workers, opts):
+    """FULL-heap rounds: requests made with alloc_with_options(at_safepoint = false) that FAIL (Space::acquire ->
+    not_acquiring -> clear_request, no block_for_gc), many of them, between collections. Large-object fillers keep the heap
+    full of live data; then small / medium requests of every semantics fail one after the other (each failure also
+    requests a GC, which runs before the next op). What was reserved for a failed request must be handed back at once:
+    the REAL per-space counters read by `stats` must stay equal to the pages granted (oracle) and to the ledger the
+    Lean monitor derives from the Pr* events — the PrClearRequest event is logged at the call site, so a clear_request
+    that is skipped / delayed / sized wrongly shows as `stats` != ledger."""
+    rng = random.Random(seed)
+    head = [f"cfg plan {plan}", f"cfg heap {heap}", f"cfg workers {workers}", "cfg watchdog 100", "cfg events 1"] + [f"cfg opt {k} {v}" for k, v in opts] + ["init", "bind 0", "bind 1"]
+    rs, nid = [], 0
+    fill_slots = list(range(20, 60))
+    ops0 = []
+    if plan == "MarkCompact":                     # F-H: keep one survivor in the mark-compact space
+        nid += 1; ops0.append(f"alloc 0 {nid} 0 64 8 0 Default 60")
+    for g in range(rounds):
+        ops = list(ops0) if g == 0 else []
+        # some ordinary allocation first (garbage + a few survivors)
+        for _ in range(rng.choice([0, 5, 20])):
+            nid += 1
+            ops.append(f"alloc {rng.choice([0, 1])} {nid} {rng.choice([0, 1, 2])} {rng.choice([24, 500, 3000, 6000])} 8 0 Default {rng.choice([rng.randrange(0, 20), 63])}")
+        # fill: live large objects, not at a safepoint; asks for 1.2-1.6 x heap in total, so the last ones fail
+        want, got = int(heap * rng.choice([1.2, 1.4, 1.6])), 0
+        rng.shuffle(fill_slots)
+        for s in fill_slots:
+            if got >= want:
+                break
+            nid += 1
+            payload = heap // rng.choice([10, 12, 16, 20, 28]) + rng.randrange(0, 4096)
+            got += payload
+            ops.append(f"alloco {rng.choice([0, 0, 1])} {nid} 0 {payload} 8 0 Los {s} 0 0 {rng.choice([0, 1])}")
+        # the heap is full: requests that fail
+        for _ in range(rng.choice([8, 20, 40])):
+            nid += 1
+            r = rng.random()
+            m = rng.choice([0, 0, 1])
+            if r < 0.55:
+                sem, payload = "Default", rng.choice([0, 24, 100, 500, 1000, 3000, 6000])
+            elif r < 0.65:
+                sem, payload = "Immortal", rng.choice([24, 500, 3000])
+            elif r < 0.75 and plan == "Immix":
+                sem, payload = "NonMoving", rng.choice([24, 500, 3000])
+            else:
+                sem, payload = "Los", rng.choice([20000, 40000, 70000, 150000, heap // 3])
+            q = rng.random()
+            if q < 0.85:
+                ops.append(f"alloco {m} {nid} {rng.choice([0, 1])} {payload} 8 0 {sem} 63 0 0 {rng.choice([0, 1])}")
+            elif q < 0.93 and sem == "Default" and payload <= 1000:
+                ops.append(f"alloco {m} {nid} 0 {payload} 8 0 {sem} 63 1 0 {rng.choice([0, 1])}")      # overcommit: granted
+            elif q < 0.97:
+                ops.append(f"alloco {m} {nid} 0 {payload} 8 0 {sem} 63 0 1 0")      # at a safepoint: blocks, collects, gives up quietly
+            else:
+                ops.append(f"alloc {m} {nid} 0 {payload} 8 0 {sem} 63")              # default options: out_of_memory
+        ops += ["root 0 63 null", "root 1 63 null"]
+        # let part of the fillers go
+        for s in rng.sample(fill_slots, rng.choice([0, 5, 20, 40])):
+            ops += [f"root 0 {s} null", f"root 1 {s} null"]
+        gc = rng.choice([None, "gc 0 0", "gc 0 1", "gc 0 1"])
+        rs.append((ops, gc))
+    return {"plan": plan, "seed": seed, "head": head, "rounds": rs, "heap": heap, "workers": workers, "opts": opts, "kind": "pressure"}
+
+
 def run_program(exe, prog):
     """returns (script for the monitor, expectations, error). One monitor line per event / stats entry."""
     pr = Proc(exe)
@@ -226,20 +292,33 @@ def run_program(exe, prog):
             byhash[fnv32(f[0])] = f[0]
         items.append(("spaces", spaces))
 
-        def drain():
+        def add_events(ev):
             nonlocal nev
-            ev, st = pr.ask(["events", "stats"])
             if "# dropped" in ev:
                 raise EOFError("event log overflowed: " + ev[-40:])
+            k = 0
             for e in E.canon(ev).split()[1:]:
                 seq, tid, kind, a, b = (int(x) for x in e.split(":"))
                 if 50 <= kind <= 58:
                     name = byhash.get(a >> 32)
                     if name is None:
                         raise EOFError(f"event {e}: unknown space hash")
-                    items.append(("ev", kind, name, a & 0xffffffff, b, tid)); nev += 1
-            d = dict(kv.split("=", 1) for kv in st.split())
-            items.append(("stats", [(x.split(":")[0], int(x.split(":")[1]), int(x.split(":")[2])) for x in d["spaces"].split(",")]))
+                    items.append(("ev", kind, name, a & 0xffffffff, b, tid)); nev += 1; k += 1
+            return k
+
+        def drain():
+            """events; then (stats; events) until the second drain shows no page-resource action: a collection that
+            was only REQUESTED by the last op (a failed non-safepoint request does not wait for it) runs when the driver
+            parks between two ops, possibly between `events` and `stats`; the accepted `stats` is one with no
+            page-resource event on either side of it since the ledger was last updated."""
+            add_events(pr.ask(["events"])[0])
+            for _ in range(40):
+                st, ev = pr.ask(["stats", "events"])
+                if add_events(ev) == 0:
+                    d = dict(kv.split("=", 1) for kv in st.split())
+                    items.append(("stats", [(x.split(":")[0], int(x.split(":")[1]), int(x.split(":")[2])) for x in d["spaces"].split(",")]))
+                    return
+            raise EOFError("the page resources never became quiescent between two ops")
 
         drain()
         for gi, (ops, gc) in enumerate(prog["rounds"]):
@@ -331,6 +410,66 @@ def check_program(exe, prog):
                   "grants": kinds.get(50, 0), "releases": kinds.get(52, 0) + kinds.get(53, 0) + kinds.get(54, 0) + kinds.get(58, 0)}
 
 
+# ------------------------------------------------------------------------------------------------
+# real-thread race on a private BlockPageResource (hx_unit `bpr race`, harness/src/comp/gcfix/bpr.rs)
+# ------------------------------------------------------------------------------------------------
+
+def bpr_lines(tier, seed):
+    """op lines, grouped per hx_unit process (one page resource per process: 2048 chunks of address range, every
+    round uses one)"""
+    rng = random.Random(f"{seed}/bpr")
+    nproc, nops = (2, 14) if tier == "quick" else (6, 60)
+    groups = []
+    for _ in range(nproc):
+        ls = []
+        for _ in range(nops):
+            t = rng.choice([2, 2, 3, 4, 4, 8, 8, 16])
+            ls.append(f"bpr race {t} {rng.choice([1, 2, 4, 8])} {rng.getrandbits(31)} {rng.choice([0, 0, 25, 50, 100])}")
+        groups.append(ls)
+    return groups
+
+
+def bpr_oracle(line, out):
+    """C28's statement on one answer: every grant is one block of 8 pages, block aligned, inside the space, granted
+    once; at both quiescent points reserved == committed == 8 x (blocks granted and not released)."""
+    if not out.startswith("granted="):
+        return [("bpr:" + out.split()[0].split(":")[0], f"`{line}` answered `{out[:200]}`")]
+    kv = {k: int(v) for k, v in (x.split("=") for x in out.split())}
+    bad = []
+    for f, key in (("failed", "bpr:request-refused"), ("dup", "bpr:block-granted-twice"), ("misaligned", "bpr:grant-unaligned"),
+                   ("outside", "bpr:grant-outside-space"), ("badpages", "bpr:grant-wrong-size")):
+        if kv[f]:
+            bad.append((key, f"`{line}`: {f}={kv[f]} ({out})"))
+    for f, key in (("com_mid", "bpr:committed-ne-granted"), ("res_mid", "bpr:reserved-ne-granted"),
+                   ("com_end", "bpr:committed-ne-granted-after-release"), ("res_end", "bpr:reserved-ne-granted-after-release")):
+        if kv[f]:
+            bad.append((key, f"`{line}`: after {kv['granted']} grants by racing threads ({kv['retry']} served by the retry branch of alloc_pages_slow_sync) "
+                             f"{f}={kv[f]} pages (counter - 8 x live blocks; must be 0): {out}"))
+    return bad
+
+
+def run_bpr(tier, seed, groups=None):
+    exe, err, _ = E.cargo_build("hx_unit")
+    if exe is None:
+        return [("harness-build-failed", f"hx_unit no longer builds: {err[-800:]}", None)], {}
+    viol, st = [], {"ops": 0, "grants": 0, "released": 0, "slow_path_entries": 0, "retry_branch": 0, "threads": {}}
+    for ls in groups or bpr_lines(tier, seed):
+        outs, rc, err_ = E.run_lines(exe, ls, timeout=600, env={"VERIF_PANIC_DETAIL": "1"})
+        outs += [f"crash:rc={rc}"] * (len(ls) - len(outs))
+        for l, o in zip(ls, outs):
+            st["ops"] += 1
+            for k, w in bpr_oracle(l, o):
+                viol.append((k, w, ls[:ls.index(l) + 1]))
+            if o.startswith("granted="):
+                kv = {k: int(v) for k, v in (x.split("=") for x in o.split())}
+                st["grants"] += kv["granted"]; st["released"] += kv["released"]; st["slow_path_entries"] += kv["slow"]; st["retry_branch"] += kv["retry"]
+                t = l.split()[2]
+                st["threads"][t] = st["threads"].get(t, 0) + 1
+    if not viol and st["retry_branch"] == 0:
+        viol.append(("coverage:bpr-retry-branch-not-reached", "no racing request was served by the retry branch of alloc_pages_slow_sync", None))
+    return viol, st
+
+
 def programs(tier, seed):
     rng = random.Random(seed)
     ps = []
@@ -345,6 +484,14 @@ def programs(tier, seed):
             if plan in ("Immix", "StickyImmix") and k % 2:
                 opts.append(("immix_always_defrag", "true"))
             ps.append(gen_program(plan, rng.getrandbits(32), rounds, heap, rng.choice([1, 2, 4]), opts))
+    # full-heap programs (failing non-safepoint requests); drawn after the classic ones, which stay as they were
+    for plan in PLANS:
+        if plan == "NoGC":
+            continue                # a GC request panics NoGC by design
+        for k in range(1 if tier == "quick" else 4):
+            heap = rng.choice([6, 8, 16]) << 20 if plan not in ("GenImmix", "GenCopy") else rng.choice([12, 16]) << 20
+            opts = [("nursery", "Fixed:2097152")] if plan in ("GenImmix", "GenCopy") else []
+            ps.append(gen_pressure_program(plan, rng.getrandbits(32), 8 if tier == "quick" else 30, heap, rng.choice([1, 2, 4]), opts))
     return ps
 
 
@@ -364,7 +511,12 @@ GC_RULE = ("GC runs: plans %s (default build; the Compressor needs the unified_r
            "(64 MB NoGC), 1-4 GC workers, two mutators; rounds of 4-60 allocations of 40 B - 150 KB over Default / Los / Immortal (/ NonMoving on Immix and "
            "MarkCompact) followed by root drops and a user GC (nursery or full); the event log is drained and `stats` read after every 12 ops and after every "
            "GC. An evaluation = one `stats` point (every space's counters checked) ; non-trivial = a program with grants and releases/resets; distinct = distinct "
-           "(plan, event-kind histogram)." % ", ".join(PLANS))
+           "(plan, event-kind histogram). Full-heap programs (1 per collecting plan quick / 4 thorough, 8 / 30 rounds): large-object fillers requested with "
+           "alloc_with_options(at_safepoint=false) for 1.2-1.6 x the heap (the last ones fail), then 8-40 requests of Default / Immortal / NonMoving / Los that "
+           "fail off a safepoint (a few with allow_overcommit, at a safepoint without the OOM call, or with default options), part of the fillers dropped, "
+           "natural / nursery / full GC: ~200 PrClearRequest per program, the REAL counters of `stats` must equal the granted pages and the ledger after every "
+           "12 ops. A `stats` point is accepted only between two `events` drains of which the second shows no page-resource action (a GC that a failed request "
+           "only asked for runs between two ops)." % ", ".join(PLANS))
 
 
 def main(argv=None):
@@ -416,6 +568,15 @@ def main(argv=None):
             lines = pg["head"] + [l for ops, gc in pg["rounds"] for l in ops + [gc]]
             violations.append(Violation(key, what + "; observed: " + viol[-1][1][:400], {"hx_gc_program": lines, "defect_index": 0, "tier": a.tier, "check_seed": a.seed},
                                         None, None, found_input=True))
+    bviol, bstat = run_bpr(a.tier, a.seed)
+    for key, what, ls in bviol:
+        if key in seen:
+            continue
+        seen.add(key)
+        violations.append(Violation(key, what, {"bpr_lines": ls} if ls else None, None, None, found_input=ls is not None,
+                                    broken=None if ls is not None else "C28 real-thread race (hx_unit bpr)"))
+    dist["bpr_race"] = bstat
+    evals += bstat.get("ops", 0)
     if not lean["ok"] and not any(v.found_input for v in violations):
         violations.append(Violation("proof-broken", f"Lean obligations no longer check: {lean['failures']}", None, None, None, False,
                                     broken=str([f.get('theorem') or f.get('module') or f['kind'] for f in lean['failures']])))
@@ -436,6 +597,12 @@ def replay(path, exe, spec):
     c = data["case"]
     if isinstance(c, list):
         return U.replay(spec, path)
+    if "bpr_lines" in c:
+        viol, st = run_bpr("quick", 0, [c["bpr_lines"]])
+        for k, w, _ in viol[:8]:
+            print(f"  {k}: {w[:400]}")
+        print("REPLAY:", "violation reproduced" if viol else "no longer reproduces")
+        return 1 if viol else 0
     E.run(["lake", "build", "mmtk_model"], cwd=E.LEAN_DIR)
     pg = defect_programs()[c["defect_index"]][2] if "defect_index" in c else programs(c.get("tier", "quick"), c.get("check_seed", 20260921))[c["index"]]
     viol, st = check_program(exe, pg)
